@@ -210,22 +210,11 @@ func (c *Ctx) resolveRPC() {
 			}
 			pairs, via, ok := c.resolvePair(f, args[pos[1]], args[pos[1]+1], 3)
 			if ok && via != "constants" {
-				// context: which targets are reached when f is entered
-				// through a particular call site
+				c.rpcParam[ci] = true
+				c.ctxFns[f] = true
 				sites, _ := c.callSitesOf(f)
-				for _, s := range sites {
-					sub, _, ok2 := c.resolvePairAt(f, s, args[pos[1]], args[pos[1]+1])
-					if !ok2 {
-						continue
-					}
-					for _, p := range sub {
-						if m := c.rpcMethod(p.a, p.b); m != nil {
-							if c.rpcCtx[ci] == nil {
-								c.rpcCtx[ci] = map[ssa.CallInstruction][]*ssa.Function{}
-							}
-							c.rpcCtx[ci][s] = append(c.rpcCtx[ci][s], m)
-						}
-					}
+				for _, cs := range sites {
+					c.ctxFns[cs.Parent()] = true
 				}
 			}
 			if ok {
@@ -299,7 +288,7 @@ type reachOpt struct {
 }
 
 // succs returns the callees of f: VTA edges plus stitched RPC targets.
-func (c *Ctx) succs(f *ssa.Function, opt reachOpt, entry ...ssa.CallInstruction) []calleeEdge {
+func (c *Ctx) succs(f *ssa.Function, opt reachOpt, chain ...ssa.CallInstruction) []calleeEdge {
 	var out []calleeEdge
 	n := c.P.CG.Nodes[f]
 	if n != nil {
@@ -323,8 +312,8 @@ func (c *Ctx) succs(f *ssa.Function, opt reachOpt, entry ...ssa.CallInstruction)
 			if opt.skipSit != nil && opt.skipSit(ci) {
 				continue
 			}
-			if m := c.rpcCtx[ci]; m != nil && len(entry) == 1 && entry[0] != nil {
-				if cts, ok := m[entry[0]]; ok {
+			if c.rpcParam[ci] && len(chain) > 0 {
+				if cts := c.rpcTargetsIn(f, ci, chain); cts != nil {
 					ts = cts
 				}
 			}
@@ -334,6 +323,57 @@ func (c *Ctx) succs(f *ssa.Function, opt reachOpt, entry ...ssa.CallInstruction)
 		}
 	}
 	return out
+}
+
+// rpcTargetsIn resolves a parameter-dependent RPC site for the call chain
+// through which its function was entered (innermost site first).
+func (c *Ctx) rpcTargetsIn(f *ssa.Function, ci ssa.CallInstruction, chain []ssa.CallInstruction) []*ssa.Function {
+	kind := strings.TrimPrefix(callName(ci.Common()), gorpcClient)
+	pos := rpcArgPos[kind]
+	args := callArgs(ci.Common())
+	a, b := args[pos[1]], args[pos[1]+1]
+	fn := f
+	for _, s := range chain {
+		_, oka := constString(a)
+		_, okb := constString(b)
+		if oka && okb {
+			break
+		}
+		if s == nil || s.Common().StaticCallee() != fn {
+			return nil // chain does not explain how fn was entered
+		}
+		sub := func(v ssa.Value) ssa.Value {
+			if p, ok := strip(v).(*ssa.Parameter); ok {
+				for i, q := range fn.Params {
+					if q == p && i < len(s.Common().Args) {
+						return s.Common().Args[i]
+					}
+				}
+			}
+			return v
+		}
+		a, b = sub(a), sub(b)
+		fn = s.Parent()
+	}
+	sa, oka := constString(a)
+	sb, okb := constString(b)
+	if !oka || !okb {
+		pairs, _, ok := c.resolvePair(fn, a, b, 2)
+		if !ok {
+			return nil
+		}
+		var out []*ssa.Function
+		for _, p := range pairs {
+			if m := c.rpcMethod(p.a, p.b); m != nil {
+				out = append(out, m)
+			}
+		}
+		return out
+	}
+	if m := c.rpcMethod(sa, sb); m != nil {
+		return []*ssa.Function{m}
+	}
+	return nil
 }
 
 // depBudget bounds how many consecutive dependency frames a path may cross
@@ -359,7 +399,17 @@ func (c *Ctx) pathTo(from *ssa.Function, isSink func(f *ssa.Function, site ssa.C
 		site ssa.CallInstruction
 		dep  int // consecutive dependency frames
 	}
-	seen := map[*ssa.Function]bool{from: true}
+	type key struct {
+		f *ssa.Function
+		s ssa.CallInstruction
+	}
+	mk := func(f *ssa.Function, s ssa.CallInstruction) key {
+		if c.ctxFns[f] {
+			return key{f, s}
+		}
+		return key{f, nil}
+	}
+	seen := map[key]bool{mk(from, nil): true}
 	work := []*item{{f: from}}
 	for len(work) > 0 {
 		cur := work[0]
@@ -370,7 +420,11 @@ func (c *Ctx) pathTo(from *ssa.Function, isSink func(f *ssa.Function, site ssa.C
 		if cur.dep > depBudget {
 			continue
 		}
-		for _, e := range c.succs(cur.f, opt, cur.site) {
+		var chain []ssa.CallInstruction
+		for it := cur; it != nil && len(chain) < 3; it = it.prev {
+			chain = append(chain, it.site)
+		}
+		for _, e := range c.succs(cur.f, opt, chain...) {
 			if isSink(e.Callee, e.Site) {
 				var path []string
 				path = append(path, e.Callee.String())
@@ -383,10 +437,11 @@ func (c *Ctx) pathTo(from *ssa.Function, isSink func(f *ssa.Function, site ssa.C
 				}
 				return path
 			}
-			if seen[e.Callee] {
+			k := mk(e.Callee, e.Site)
+			if seen[k] {
 				continue
 			}
-			seen[e.Callee] = true
+			seen[k] = true
 			dep := 0
 			if !isRepoFn(e.Callee) && e.Callee.Synthetic == "" {
 				dep = cur.dep + 1
